@@ -27,16 +27,16 @@ RULE = (
     "per-mode transfer functions fft2(conc)/fft2(q0), fft2(flux)/fft2(q0) are compared with the Riccati/DOP853 reference of the "
     "continuous BVP. Admitted modes: r = max_i |T|dz_i^2/Kz <= 1 on the coarse grid, sum Re(lambda)dz <= 18 over the column and <= 8 up to the output height (the relative rounding error of "
     "the decayed response at height z is ~ eps*exp(2*growth(z)); unpaired Nyquist row/column excluded). Assertions: (a) E(n) <= 6*delta(n) and E(4n) < E(n) (or both < 1e-6) over all admitted modes; (b) rate "
-    "E(4n) <= max(E(n)/2.5, 1e-6) over admitted modes with r <= 0.5 on grids with delta <= 1 (E = max over the mode set of the "
+    "E(4n) <= max(E(n)/2.5, 1e-6) over admitted modes with r <= 0.5 on grids with delta <= 1 and at least 16 layers (E = max over the mode set of the "
     "larger of the relative conc- and flux-transfer errors). Non-trivial = >= 2 admitted modes, Kz(top)/Kz(z0) >= 2 and E(n) > 1e-5; "
     "distinct = canonical JSON."
 )
 ASSUMPTIONS = [
-    "the rate (b) is asserted for the combined response on r <= 0.5 and delta <= 1: a strict subset of the stated regime in which it is a property of the scheme rather than of a lucky coarse grid (calibration in DESIGN.md)",
+    "the rate (b) is asserted for the combined response on r <= 0.5, delta <= 1 and n >= 16 layers (on 8-layer grids the best-resolved modes can have an accidentally small coarse-grid error: ratio 2.40 seen once in 6452 thorough cases, 3.27 minimum in calibration): a strict subset of the stated regime in which it is a property of the scheme rather than of a lucky coarse grid (calibration in DESIGN.md)",
     "reference accuracy: DOP853 rtol 1e-11 / atol 1e-14",
     "per-mode relative errors are only asserted where the shooting growth up to the output height is <= e^8, i.e. rounding <= ~1e-8 relative (calibration: at growth 17-18 to the top node the relative rounding error reaches 0.4)",
 ]
-TOLERANCES = {"a": "E(n) <= 6*delta, E(4n) < E(n) or both < 1e-6", "b": "E(n)/E(4n) >= 2.5 (r <= 0.5, delta <= 1)"}
+TOLERANCES = {"a": "E(n) <= 6*delta, E(4n) < E(n) or both < 1e-6", "b": "E(n)/E(4n) >= 2.5 (r <= 0.5, delta <= 1, n >= 16)"}
 BUDGET = {"quick": dict(examples=110, shards=1), "thorough": dict(examples=400, shards=16)}
 NO_SHRINK = {"quick": False}
 MAX_MODES = 16
@@ -212,7 +212,7 @@ def check_case(c):
                 f"({gk} grid, n={n0}, family {c['fam']})")
     if not (E_all[1] < E_all[0] or max(E_all) < 1e-6):
         out.bad(f"error does not decrease under refinement: {E_all[0]:.3e} at n={n0} -> {E_all[1]:.3e} at n={4 * n0} ({gk} grid)")
-    if delta <= 1.0 and n_half >= 1:
+    if delta <= 1.0 and n_half >= 1 and n0 >= 16:
         out.label("rate-asserted")
         if not E_half[1] <= max(E_half[0] / 2.5, 1e-6):
             out.bad(f"error shrinks only {E_half[0] / max(E_half[1], 1e-300):.2f}-fold when the layer thickness is quartered "
